@@ -9,8 +9,9 @@ import N0Verif.Py.Basic
   `offset` after it (what the harness reads from the generator frame).
 
   The model follows the code **with fixes C16-a and C16-c applied**
-  (`parse_tlv`: `if _len < 0: raise ValueError`; `generate_tlv`: a `len_padding` that is
-  neither `'0'` nor an ASCII blank is refused with `AssertionError` before anything is written).
+  (`parse_tlv`: `if _len < 0: raise ValueError`; `generate_tlv`: a one-character `len_padding`
+  that `int()` does not read through — `int(pad + pad + '1') != 1` or `ValueError` — is refused
+  with `AssertionError` before anything is written).
   `stepOld` is the step of the code before fix C16-a; it is used only by the
   counter-example theorems of `Props/C16.lean`.
 
@@ -169,13 +170,17 @@ def genEntries (tl ll : Nat) (tp lp : Char) : List (Str × Str) → Except PyErr
       | .error e' => .error e'
       | .ok r => .ok (e ++ r)
 
-/-- `len_padding == '0' or len_padding in ' \t\n\r\x0b\x0c'` (a single character): the
-paddings `generate_tlv` accepts since fix C16-c -/
-def lenPadOk (lp : Char) : Bool :=
-  lp = '0' || lp = ' ' || lp = '\t' || lp = '\n' || lp = '\r' || lp = Char.ofNat 11 || lp = Char.ofNat 12
+/-- the probe of fix C16-c, as the code has it: `try: readable = int(f"{pad}{pad}1") == 1`
+`except ValueError: readable = False` (`len_padding` a single character).  It holds exactly for
+`'0'` and the characters `int()` strips (`lenPadOk_iff` in `Proofs/Tlv.lean`). -/
+def lenPadOk (lp : Char) : Bool := pyInt [lp, lp, '1'] == some 1
 
-/-- `generate_tlv(dict(d), tl, ll, tp, lp)`: the argument check on `len_padding`
-(`raise_exception(str)` = `AssertionError`, raised before any entry is looked at), then the entries -/
+/-- scope of the padding check: the probe hands the padding to `int()` (see `intInScope`); a
+Unicode decimal zero such as U+0660 is read through by the real `int()` and is outside the model -/
+def padInScope (lp : Char) : Bool := intInScope [lp]
+
+/-- `generate_tlv(dict(d), tl, ll, tp, lp)`: the probe of `len_padding` (`if not readable:
+raise_exception(str)` = `AssertionError`, raised before any entry is looked at), then the entries -/
 def generateTlv (tl ll : Nat) (tp lp : Char) (d : List (Str × Str)) : Except PyErr Str :=
   if lenPadOk lp then genEntries tl ll tp lp d else .error .AssertionError
 
